@@ -458,3 +458,373 @@ impl C27 {
         Verdict::Pass
     }
 }
+
+// ---------------------------------------------------------------------------------------------
+pub struct C28;
+
+#[derive(Clone, Debug, Serialize, Deserialize)]
+pub struct RenameCase {
+    pub text: String,
+    pub new_name: String,
+}
+
+/// identifier tokens of a PAR text outside literals and comments: (name, line, character, byte offset)
+fn identifiers(text: &str) -> Vec<(String, u32, u32, usize)> {
+    let chars: Vec<(usize, char)> = text.char_indices().collect();
+    let mut out = vec![];
+    let (mut line, mut col) = (0u32, 0u32);
+    let mut i = 0;
+    let adv = |c: char, line: &mut u32, col: &mut u32| {
+        if c == '\n' {
+            *line += 1;
+            *col = 0;
+        } else {
+            *col += 1;
+        }
+    };
+    while i < chars.len() {
+        let (off, c) = chars[i];
+        if c == '\'' || c == '"' || (c == '/' && chars.get(i + 1).map(|x| x.1) != Some('/') && chars.get(i + 1).map(|x| x.1) != Some('*')) {
+            let q = c;
+            adv(c, &mut line, &mut col);
+            i += 1;
+            while i < chars.len() && chars[i].1 != q {
+                if chars[i].1 == '\\' {
+                    adv(chars[i].1, &mut line, &mut col);
+                    i += 1;
+                    if i >= chars.len() {
+                        break;
+                    }
+                }
+                adv(chars[i].1, &mut line, &mut col);
+                i += 1;
+            }
+            if i < chars.len() {
+                adv(chars[i].1, &mut line, &mut col);
+                i += 1;
+            }
+        } else if c == '/' && chars.get(i + 1).map(|x| x.1) == Some('/') {
+            while i < chars.len() && chars[i].1 != '\n' {
+                adv(chars[i].1, &mut line, &mut col);
+                i += 1;
+            }
+        } else if c == '/' && chars.get(i + 1).map(|x| x.1) == Some('*') {
+            while i < chars.len() && !(chars[i].1 == '*' && chars.get(i + 1).map(|x| x.1) == Some('/')) {
+                adv(chars[i].1, &mut line, &mut col);
+                i += 1;
+            }
+            for _ in 0..2 {
+                if i < chars.len() {
+                    adv(chars[i].1, &mut line, &mut col);
+                    i += 1;
+                }
+            }
+        } else if c.is_ascii_alphabetic() || c == '_' {
+            let (sl, sc) = (line, col);
+            let mut name = String::new();
+            while i < chars.len() && (chars[i].1.is_ascii_alphanumeric() || chars[i].1 == '_') {
+                name.push(chars[i].1);
+                adv(chars[i].1, &mut line, &mut col);
+                i += 1;
+            }
+            // directives like %start are not identifiers
+            let is_directive = off > 0 && text[..off].ends_with('%');
+            if !is_directive {
+                out.push((name, sl, sc, off));
+            }
+        } else {
+            adv(c, &mut line, &mut col);
+            i += 1;
+        }
+    }
+    out
+}
+
+fn apply_edits(text: &str, edits: &[(u32, u32, u32, u32, String)]) -> Option<String> {
+    // (start line, start char, end line, end char, new text); character = char index in line
+    let line_starts: Vec<usize> = std::iter::once(0).chain(text.match_indices('\n').map(|(i, _)| i + 1)).collect();
+    let off = |l: u32, c: u32| -> Option<usize> {
+        let s = *line_starts.get(l as usize)?;
+        let line = &text[s..];
+        let line = &line[..line.find('\n').unwrap_or(line.len())];
+        let b = line.char_indices().nth(c as usize).map(|x| x.0).or(if line.chars().count() == c as usize { Some(line.len()) } else { None })?;
+        Some(s + b)
+    };
+    let mut v: Vec<(usize, usize, &String)> = vec![];
+    for (sl, sc, el, ec, nt) in edits {
+        v.push((off(*sl, *sc)?, off(*el, *ec)?, nt));
+    }
+    v.sort_by(|a, b| b.0.cmp(&a.0));
+    let mut out = text.to_string();
+    let mut last_start = usize::MAX;
+    for (s, e, nt) in v {
+        if e > last_start || s > e {
+            return None; // overlapping edits
+        }
+        out.replace_range(s..e, nt);
+        last_start = s;
+    }
+    Some(out)
+}
+
+impl Check for C28 {
+    type Case = RenameCase;
+    fn id(&self) -> &'static str {
+        "C28"
+    }
+    fn rule(&self) -> String {
+        "case = valid PAR text (generated grammars with %nt_type, %skip, %on, %scanner blocks, <State> lists, member names, user types, comments and BMP non-ASCII text in comments) x every occurrence of a non-terminal or scanner-state identifier x a fresh new name; the generator keeps the name spaces (non-terminals, scanner states, aliases, member names, user types) disjoint, so the expected result is the text with exactly the identifier tokens equal to the old name (outside literals and comments) replaced; oracle: prepareRename accepts the position (and refuses the start symbol and INITIAL), the edits returned by rename, applied to the text, give exactly the expected text. Evaluations = rename requests. Non-trivial = renamed symbol with >= 3 occurrences including one in a declaration (%nt_type / %skip / %on / %enter / %push / <State> list / %scanner header); distinct by (text, old name)".into()
+    }
+    fn strategy(&self, tier: Tier) -> BoxedStrategy<RenameCase> {
+        (valid_texts(tier), proptest::sample::select(vec!["Renamed", "X9", "new_name", "Zz"]))
+            .prop_map(|(t, n)| RenameCase { text: t.replacen("%%", "// \u{e4}\u{4e2d} names: S A B State0\n%%", 1), new_name: n.to_string() })
+            .boxed()
+    }
+    fn cases(&self, tier: Tier) -> u32 {
+        tier.pick(500, 15000)
+    }
+    fn run(&self, c: &RenameCase, st: &mut Stats) -> Verdict {
+        let t = &c.text;
+        let gc = match crate::pipeline::read_grammar(t) {
+            Ok(g) => g,
+            Err(_) => return Verdict::Skip("text is not a valid grammar".into()),
+        };
+        let ids = identifiers(t);
+        let nts: std::collections::BTreeSet<String> = gc.cfg.pr.iter().map(|p| p.get_n()).filter(|n| ids.iter().any(|i| &i.0 == n)).collect();
+        let states: std::collections::BTreeSet<String> = gc.scanner_configurations.iter().map(|s| s.scanner_name.clone()).collect();
+        if ids.iter().any(|i| i.0 == c.new_name) {
+            return Verdict::Skip("new name is not fresh".into());
+        }
+        let start = gc.cfg.st.clone();
+        let bad = |v: &Value| v.get("panic").map(|p| p.to_string());
+        macro_rules! ask {
+            ($cmd:expr) => {{
+                match call($cmd) {
+                    Ok(v) => {
+                        if let Some(p) = bad(&v) {
+                            return Verdict::Fail("C28:request_panics".into(), format!("{p}\n{t}"));
+                        }
+                        v
+                    }
+                    Err(e) => return Verdict::Fail("C28:server_process_dies".into(), format!("{e}\n{t}")),
+                }
+            }};
+        }
+        ask!(json!({"cmd": "new_server", "max_k": 1}));
+        ask!(json!({"cmd": "open", "uri": URI, "version": 1, "text": t}));
+        let names: Vec<String> = nts.iter().chain(states.iter()).cloned().collect();
+        for old in names {
+            let occ: Vec<&(String, u32, u32, usize)> = ids.iter().filter(|i| i.0 == old).collect();
+            if occ.is_empty() {
+                continue;
+            }
+            let is_state = states.contains(&old);
+            let refuse = old == start || old == "INITIAL";
+            // expected text
+            let mut expected = t.clone();
+            let mut offs: Vec<usize> = occ.iter().map(|o| o.3).collect();
+            offs.sort_by(|a, b| b.cmp(a));
+            for o in &offs {
+                expected.replace_range(*o..*o + old.len(), &c.new_name);
+            }
+            for o in &occ {
+                st.eval(1);
+                let pos = json!({"line": o.1, "character": o.2});
+                let prep = ask!(json!({"cmd": "request", "method": "textDocument/prepareRename", "params": {"textDocument": {"uri": URI}, "position": pos}}));
+                let accepted = !prep["result"].is_null();
+                let ctx = || format!("symbol {old} ({}) at {}:{}\n{t}", if is_state { "scanner state" } else { "non-terminal" }, o.1, o.2);
+                if refuse {
+                    if accepted {
+                        return Verdict::Fail("C28:protected_symbol_offered_for_rename".into(), ctx());
+                    }
+                    continue;
+                }
+                if !accepted {
+                    return Verdict::Fail(
+                        format!("C28:occurrence_refused_{}", if is_state { "scanner_state" } else { "non_terminal" }),
+                        format!("prepareRename refuses this occurrence\n{}", ctx()),
+                    );
+                }
+                let r = ask!(json!({"cmd": "request", "method": "textDocument/rename", "params": {"textDocument": {"uri": URI}, "position": pos, "newName": c.new_name}}));
+                let mut edits = vec![];
+                let mut collect = |e: &Value| {
+                    let r = &e["range"];
+                    edits.push((
+                        r["start"]["line"].as_u64().unwrap_or(0) as u32,
+                        r["start"]["character"].as_u64().unwrap_or(0) as u32,
+                        r["end"]["line"].as_u64().unwrap_or(0) as u32,
+                        r["end"]["character"].as_u64().unwrap_or(0) as u32,
+                        e["newText"].as_str().unwrap_or("").to_string(),
+                    ));
+                };
+                if let Some(dc) = r["result"]["documentChanges"].as_array() {
+                    for d in dc {
+                        for e in d["edits"].as_array().cloned().unwrap_or_default() {
+                            collect(&e);
+                        }
+                    }
+                }
+                if let Some(ch) = r["result"]["changes"].as_object() {
+                    for (_, v) in ch {
+                        for e in v.as_array().cloned().unwrap_or_default() {
+                            collect(&e);
+                        }
+                    }
+                }
+                if edits.is_empty() {
+                    return Verdict::Fail("C28:rename_returns_no_edits".into(), format!("{}\nanswer {r}", ctx()));
+                }
+                // duplicates of the same edit are tolerated (applying a replace twice at the same range is one edit)
+                edits.sort();
+                edits.dedup();
+                let Some(got) = apply_edits(t, &edits) else {
+                    return Verdict::Fail("C28:edits_overlap_or_out_of_range".into(), format!("edits {edits:?}\n{}", ctx()));
+                };
+                if got != expected {
+                    let la: Vec<&str> = got.lines().collect();
+                    let lb: Vec<&str> = expected.lines().collect();
+                    let i = la.iter().zip(&lb).position(|(a, b)| a != b).unwrap_or(la.len().min(lb.len()));
+                    let sig = if is_state { "C28:scanner_state_rename_incomplete_or_wrong" } else { "C28:non_terminal_rename_incomplete_or_wrong" };
+                    return Verdict::Fail(sig.into(), format!("line {i}: got {:?}, expected {:?}\nedits {edits:?}\n{}", la.get(i), lb.get(i), ctx()));
+                }
+            }
+            if !refuse && occ.len() >= 3 {
+                let in_decl = occ.iter().any(|o| {
+                    let line = t.lines().nth(o.1 as usize).unwrap_or("");
+                    line.contains('%') || line.contains('<')
+                });
+                if in_decl {
+                    st.nontrivial(hash_of(&(t, &old)));
+                }
+            }
+            st.class(if is_state { "renamed_scanner_state" } else if refuse { "refused_start_symbol" } else { "renamed_non_terminal" });
+        }
+        st.sample(|| json!({"text": crate::util::trunc(t, 300), "new_name": c.new_name}));
+        Verdict::Pass
+    }
+}
+
+// ---------------------------------------------------------------------------------------------
+pub struct C29;
+
+#[derive(Clone, Debug, Serialize, Deserialize)]
+pub struct HistoryCase {
+    /// index into the text pool per version (version = index + 1)
+    pub versions: Vec<usize>,
+    /// release order: positions into `versions` (a permutation); entries whose version started no
+    /// background analysis are skipped by the server side
+    pub release: Vec<usize>,
+}
+
+const POOL: &[(&str, &str)] = &[
+    ("valid_ll", "%start S\n%%\nS: 'a' B;\nB: 'b' | 'c';\n"),
+    ("valid_ll_2", "%start S\n%%\nS: { 'x' } 'y';\n"),
+    ("syntax_error", "%start S\n%%\nS: 'a' ;;\n"),
+    ("ll_conflict", "%start S\n%%\nS: A 'x' | A 'y';\nA: 'a' A | ;\n"),
+    ("lr_conflict", "%start E\n%grammar_type 'lalr(1)'\n%%\nE: E '+' E | 'n';\n"),
+    ("valid_lr", "%start E\n%grammar_type 'lalr(1)'\n%%\nE: E '+' T | T;\nT: 'n';\n"),
+    ("non_productive", "%start S\n%%\nS: 'a' B;\nB: 'b' B;\n"),
+    ("left_recursive_ll", "%start S\n%%\nS: S 'a' | 'b';\n"),
+];
+
+fn last_publish(notifications: &Value) -> Option<(i64, Value)> {
+    notifications["notifications"].as_array()?.iter().rev().find(|n| n["method"] == "textDocument/publishDiagnostics").map(|n| {
+        let mut d = n["params"]["diagnostics"].clone();
+        // related information carries document URIs only
+        if let Some(a) = d.as_array_mut() {
+            for x in a.iter_mut() {
+                if let Some(o) = x.as_object_mut() {
+                    o.remove("data");
+                }
+            }
+        }
+        (n["params"]["version"].as_i64().unwrap_or(-1), d)
+    })
+}
+
+impl Check for C29 {
+    type Case = HistoryCase;
+    fn id(&self) -> &'static str {
+        "C29"
+    }
+    fn rule(&self) -> String {
+        "case = history open v1, change v2 .. vn (n <= 5) over a pool of texts {valid LL, syntax error, LL(k) conflict found by the background analysis, LR conflict, valid LR, non-productive, left-recursive} plus a completion order (permutation) for the background analyses, which the harness owns through the cfg-guarded gate (an analysis blocks on its first access to the grammar until its version is released; the driver waits for it to finish before releasing the next); oracle: after all analyses have finished the last publishDiagnostics notification carries version n and the diagnostics a fresh server publishes last for text n alone. Evaluations = histories. Non-trivial = history in which an analysis of an older version is released after a newer version was published; distinct by history".into()
+    }
+    fn strategy(&self, _tier: Tier) -> BoxedStrategy<HistoryCase> {
+        (proptest::collection::vec(0usize..POOL.len(), 1..=5), tape(5..6))
+            .prop_map(|(versions, tp)| {
+                let mut t = Tape { data: &tp, pos: 0 };
+                let mut idx: Vec<usize> = (0..versions.len()).collect();
+                let mut release = vec![];
+                while !idx.is_empty() {
+                    release.push(idx.remove(t.next(idx.len())));
+                }
+                HistoryCase { versions, release }
+            })
+            .boxed()
+    }
+    fn cases(&self, tier: Tier) -> u32 {
+        tier.pick(400, 10000)
+    }
+    fn run(&self, c: &HistoryCase, st: &mut Stats) -> Verdict {
+        let n = c.versions.len();
+        macro_rules! ask {
+            ($cmd:expr) => {{
+                match call($cmd) {
+                    Ok(v) => {
+                        if let Some(p) = v.get("panic") {
+                            return Verdict::Fail("C29:server_panics".into(), format!("{p}\nhistory {c:?}"));
+                        }
+                        v
+                    }
+                    Err(e) => return Verdict::Fail("C29:server_process_dies".into(), format!("{e}\nhistory {c:?}")),
+                }
+            }};
+        }
+        // reference: fresh server, only the final text
+        let final_text = POOL[c.versions[n - 1]].1;
+        ask!(json!({"cmd": "new_server", "max_k": 2}));
+        ask!(json!({"cmd": "open", "uri": URI, "version": n, "text": final_text}));
+        ask!(json!({"cmd": "wait_idle"}));
+        let Some((_, want)) = last_publish(&ask!(json!({"cmd": "diagnostics"}))) else {
+            return Verdict::Broken("fresh server publishes nothing".into());
+        };
+        // the history, gated
+        ask!(json!({"cmd": "new_server", "max_k": 2}));
+        ask!(json!({"cmd": "gating", "on": true}));
+        for (i, v) in c.versions.iter().enumerate() {
+            let cmd = if i == 0 { "open" } else { "change" };
+            ask!(json!({"cmd": cmd, "uri": URI, "version": i + 1, "text": POOL[*v].1}));
+        }
+        for r in &c.release {
+            // release this version's analysis (if it started one); the driver waits until it is done
+            ask!(json!({"cmd": "release", "version": r + 1}));
+        }
+        ask!(json!({"cmd": "gating", "on": false}));
+        ask!(json!({"cmd": "wait_idle"}));
+        st.eval(1);
+        let Some((version, got)) = last_publish(&ask!(json!({"cmd": "diagnostics"}))) else {
+            return Verdict::Fail("C29:nothing_published".into(), format!("history {c:?}"));
+        };
+        let names: Vec<&str> = c.versions.iter().map(|v| POOL[*v].0).collect();
+        let stale_possible = c.release.iter().position(|r| *r == n - 1).is_some_and(|p| p + 1 < c.release.len());
+        if version != n as i64 {
+            return Verdict::Fail(
+                "C29:last_diagnostics_carry_old_version".into(),
+                format!("last published diagnostics have version {version}, final version is {n}\nhistory {names:?}, release order (0-based version index) {:?}\nlast diagnostics {got}", c.release),
+            );
+        }
+        if got != want {
+            return Verdict::Fail(
+                "C29:last_diagnostics_differ_from_final_text".into(),
+                format!("history {names:?}, release order {:?}\nlast published: {got}\nfresh server on final text: {want}", c.release),
+            );
+        }
+        if stale_possible && n >= 2 {
+            st.class("older_analysis_released_after_final_version");
+            st.nontrivial(hash_of(&format!("{c:?}")));
+        }
+        st.sample(|| json!({"history": names, "release_order": c.release}));
+        Verdict::Pass
+    }
+}
